@@ -448,8 +448,8 @@ def ob_tick_roundtrip(tk: int, r0: int, r1: int, ei: int, n: int, opt: bool) -> 
 
 # ------------------------------------------------------------------------------------------------ Ob3 exceptions
 
-X_VALUE, X_RUNTIME, X_HERR, X_WF, X_TIMEOUT, X_OS, X_KEY, X_HERR2, X_JSON, X_UNICODE = range(10)
-N_EXC = 10
+X_VALUE, X_RUNTIME, X_HERR, X_WF, X_TIMEOUT, X_OS, X_KEY, X_HERR2, X_JSON, X_UNICODE, X_TWOARGS = range(11)
+N_EXC = 11
 MSGS: List[str] = ["a", "", "x y", "'", "é\n", "exception_message"] + [s for s in STRS if s != "exception_message"]
 NMSG = B(6, len(MSGS))
 
@@ -473,6 +473,8 @@ def make_exc(xi: int, msg: str) -> Exception:
         return HErr2(1, msg)
     if xi == X_JSON:
         return json.JSONDecodeError(msg, "doc", 0)
+    if xi == X_TWOARGS:
+        return HErr(msg, "second argument")      # plain Exception subclass built with two arguments: str() shows both
     return UnicodeDecodeError("utf-8", b"\xff", 0, 1, msg)
 
 
